@@ -454,6 +454,15 @@ def f_owner(ex, st, e):
     return SV("ref", owner_of(o.t), None)
 
 
+def f_gen_arg(ex, st, e):
+    """gen_arg(g, 'param'): the argument a generator object under a `yields` contract was created with"""
+    g = ex.ev1(e.args[0], st)
+    if g.h is None or g.h.kind != "gen":
+        raise Unsupported("gen_arg on a non-generator", e)
+    from .calls import gen_ghost
+    return SV("val", ex.heap_get(st, gen_ghost(g.h.name, e.args[1].value))[g.t], None)
+
+
 def f_ref_eq(ex, st, e):
     a = ex.ev1(e.args[0], st)
     b = ex.ev1(e.args[1], st)
@@ -479,6 +488,6 @@ SPEC_FUNCS = {
     "is_false": _valpred(lambda v: v == Val.boolv(False)), "is_dec": _valpred(lambda v: z3.Or(Val.is_decv(v), Val.is_dpinf(v))),
     "is_fin": _valpred(smt.isfin), "is_time": _valpred(lambda v: z3.Or(Val.is_intv(v), Val.is_realv(v), Val.is_pinf(v), Val.is_decv(v), Val.is_dpinf(v))), "is_pinf": _valpred(lambda v: Val.is_pinf(v)),
     "is_ref": _valpred(lambda v: Val.is_ref(v)), "is_str": _valpred(lambda v: Val.is_strv(v)),
-    "cls_is": f_cls_is, "is_obj": f_is_obj, "is_list": f_is_list, "as_obj": f_as_obj, "as_list": f_as_list, "alive": f_alive, "was_alive": f_was_alive, "oldf": f_oldf, "nnodes": f_nnodes, "alive_before_loop": f_alive_before_loop, "same": f_same, "has": f_has,
+    "cls_is": f_cls_is, "is_obj": f_is_obj, "is_list": f_is_list, "as_obj": f_as_obj, "as_list": f_as_list, "alive": f_alive, "was_alive": f_was_alive, "oldf": f_oldf, "nnodes": f_nnodes, "alive_before_loop": f_alive_before_loop, "same": f_same, "has": f_has, "gen_arg": f_gen_arg,
     "owner": f_owner, "ref_eq": f_ref_eq, "real": f_realv,
 }
